@@ -670,6 +670,7 @@ class Directive:
         self.props = []
         self.anchor_text = None
         self.body_prefix = None
+        self.counts = []
         self.span_from = None
         self.span_upto = None
         self.bytesconst = False
@@ -717,7 +718,7 @@ def render_span(d, it, repo_root, registry):
     rule_hits = {}
     for rule, n in d.rules:
         rule_hits[rule] = apply_rule(sf, f[0], end, rule, ed)
-        if rule_hits[rule] != n:
+        if n >= 0 and rule_hits[rule] != n:
             raise ExtractError("anchor lost: rule %s hit %d times in span of %s, contract expects %d" % (rule, rule_hits[rule], it.name, n))
     registry.append({"mode": "fn", "file": os.path.relpath(sf.path, repo_root), "item": d.query + " [span]", "name": d.rename or (it.name + "__span"),
                      "line": toks[f[0]].line, "rules": rule_hits, "cfg_true": cfg_t, "cfg_false": cfg_f, "clauses": [], "canary": False,
@@ -880,8 +881,14 @@ def render_item(d, it, repo_root, registry):
             if j < it.end:
                 ed.replace(j, it.end, [Piece("{ _opaque: () }")])
     for rule, n in d.rules:
-        if rule_hits[rule] != n:
+        if n >= 0 and rule_hits[rule] != n:
             raise ExtractError("anchor lost: rule %s hit %d times in %s, contract expects %d" % (rule, rule_hits[rule], it.name or it.header, n))
+    for n, txt in d.counts:
+        want = [t.text for t in lex(txt) if t.kind not in TRIVIA]
+        sigidx = [k for k in range(it.body_open or a, it.body_close or b) if toks[k].kind not in TRIVIA]
+        hits = sum(1 for p in range(len(sigidx) - len(want) + 1) if [toks[sigidx[p + q]].text for q in range(len(want))] == want)
+        if hits != n:
+            raise ExtractError("anchor lost: %r occurs %d times in %s, the contract's oracle needs exactly %d" % (txt, hits, it.name, n))
     if pre:
         ed.insert_before(it.first, pre)
     pieces = render_tokens(sf, a, b, ed)
@@ -920,7 +927,7 @@ def render_item(d, it, repo_root, registry):
     return out
 
 
-OPTION_KW = ("ret", "req", "ens", "props", "loop", "closure", "rule", "attr", "dropattr", "canary", "rename", "prefix", "from", "upto", "bytesconst")
+OPTION_KW = ("ret", "req", "ens", "props", "loop", "closure", "rule", "attr", "dropattr", "canary", "rename", "prefix", "from", "upto", "bytesconst", "count")
 _lab_re = re.compile(r"^(req|ens|inv)(\[([^\]]+)\])?\s+(.*)$", re.S)
 
 
@@ -991,7 +998,8 @@ def parse_options(d, lines, unit_name):
                 raise ExtractError("template line %d: bad closure option" % tline)
         elif w == "rule":
             r, n = rest.split()
-            d.rules.append((r, int(n)))
+            # `*`: any number of hits (rewrites that are total and meaning-preserving wherever they match)
+            d.rules.append((r, -1 if n == "*" else int(n)))
         elif w == "attr":
             d.attrs.append(rest)
         elif w == "dropattr":
@@ -1002,6 +1010,11 @@ def parse_options(d, lines, unit_name):
             d.rename = rest
         elif w == "prefix":
             d.body_prefix = rest
+        elif w == "count":
+            # `count <n> <token text>`: the body must contain the token sequence exactly n times (guards the
+            # "at most one call" side condition of prophecy-style oracles); otherwise the run is undecided
+            n, txt = rest.split(None, 1)
+            d.counts.append((int(n), txt))
         elif w == "from":
             d.span_from = rest
         elif w == "upto":
@@ -1032,13 +1045,19 @@ def expand(template_path, repo_root, verif_root, registry, _depth=0):
     with open(template_path, encoding="utf-8") as f:
         lines = f.read().split("\n")
     rel_t = os.path.relpath(template_path, verif_root)
+    default_rules = []
     i = 0
     unit = os.path.splitext(os.path.basename(template_path))[0]
     while i < len(lines):
         line = lines[i]
         m = _dir_re.match(line)
+        md = re.match(r"^\s*//@ defaults rule (\S+) \*\s*$", line)
+        if md:
+            default_rules.append((md.group(1), -1))
+            i += 1
+            continue
         if not m:
-            if line.lstrip().startswith("//@") and not line.lstrip().startswith("//@label") and not line.lstrip().startswith("//@lemma"):
+            if line.lstrip().startswith("//@") and not line.lstrip().startswith(("//@label", "//@lemma", "//@ defaults")):
                 raise ExtractError("%s:%d: stray directive line: %s" % (rel_t, i + 1, line.strip()))
             mlem = re.search(r"proof fn (\w+).*//@lemma\s+(\S+)", line)
             if mlem:
@@ -1071,6 +1090,10 @@ def expand(template_path, repo_root, verif_root, registry, _depth=0):
             i += 1
         d = Directive(mode, arg1, arg2, "%s:%d" % (rel_t, tline))
         parse_options(d, opts, unit)
+        if mode in ("fn", "sig", "span"):
+            for r, n in default_rules:
+                if r not in [x for x, _ in d.rules]:
+                    d.rules.append((r, n))
         path = os.path.join(repo_root, arg1)
         if not os.path.exists(path):
             raise ExtractError("anchor lost: %s does not exist" % arg1)
